@@ -638,7 +638,7 @@ class NotInFragment(Exception):
 
 
 def expr_vars(e):
-    if not isinstance(e, tuple):
+    if not isinstance(e, tuple) or not e:
         return []
     if e[0] == "var":
         return [e[1]]
